@@ -50,9 +50,9 @@ def valid_close(code):
     return True
 
 
-def gen_script(ch, ver):
+def gen_script(ch, ver, deep=False):
     ops = []
-    n = ch.draw(9, 'n_ops')
+    n = ch.draw(14 if deep else 9, 'n_ops')
     sent = 0
     accepted = False
     for _ in range(n):
@@ -488,8 +488,9 @@ def run(ctx):
     cfg = gen_cfg(ch)
     cfg['spec_version'] = ch.choice(['2.3', '2.0', '2.1', '2.2', '2.4'], 'spec')
     app_cfg = gen_app_cfg(ch)
-    client = gen_client(ch, max_msgs=4, allow_abandon=True)
-    script = gen_script(ch, cfg['spec_version'])
+    deep = ctx.tier == 'thorough'
+    client = gen_client(ch, max_msgs=7 if deep else 4, allow_abandon=True)
+    script = gen_script(ch, cfg['spec_version'], deep)
     fm = ch.weighted([6, 3, 1], 'faulty')
     cfg['lost_mode'] = ch.choice(['oserror', 'wsexc', 'drop'], 'lost_mode')
     if fm == 1:
